@@ -25,7 +25,8 @@ def as_array(av):
         el = join_all(av.elts) if av.elts else av.elem
         out = AV(ty='ndarray', deps=av.deps, store='fresh', fresh=True, maybe_empty=av.maybe_empty, symlen=av.symlen)
         if el is not None:
-            out = out.w(geo=el.geo, idx=el.idx, mono=mono_of(el), dtype=el.dtype)
+            out = out.w(geo=el.geo, idx=el.idx, mono=mono_of(el), dtype=el.dtype, symimg=el.symimg, unwrapped_image=el.unwrapped_image,
+                        bin=el.bin if av.elts is None else None)
             if el.axes is not None:
                 out = out.w(axes=('item',) + tuple(el.axes))
             elif el.geo is not None and el.geo[0] in ('FRAC', 'FDIFF', 'CART', 'SYMIMG') and el.ty != 'ndarray':
@@ -199,7 +200,8 @@ class NpCalls:
         out = AV(ty='ndarray', deps=d, store='fresh', fresh=True)
         if arrs:
             j = join_all(arrs)
-            out = out.w(geo=j.geo, idx=j.idx, mono=j.mono, dtype=j.dtype, at=j.at, maybe_empty=None,
+            out = out.w(geo=j.geo, idx=j.idx, mono=j.mono, dtype=j.dtype, at=j.at, maybe_empty=None, symimg=j.symimg, unwrapped_image=j.unwrapped_image,
+                        bin=j.bin if seq.elts is None else None,
                         rollwrap=True if any(a.rollwrap for a in arrs) else None)
             ats = {a.at if a.at is not None else 0 for a in arrs if a.idx is not None and a.idx[0] == 'FRAME'}
             if len(ats) > 1:
